@@ -213,7 +213,7 @@ func sampledPlane(c *engine.Ctx, in sampledInstance, mode string, judgeClean boo
 		c.Emit(stream, ev)
 		c.Obs("sampled:fault_runs:"+mode, 1)
 		c.Obs("sampled:section:"+sect, 1)
-		if sect == "weights" {
+		if coversWeights(sect) {
 			c.NTDistinct(1)
 		}
 		det := func() caseDetail {
